@@ -340,6 +340,41 @@ pub fn c14(opts: &Opts, out: &mut Out) {
             classes.insert((n, m, t, 20usize));
         }
     }
+    // witnesses assembled through the public fields (not through `RangeWitness::init`), which the prover accepts:
+    // openings with fewer blinding factors than the statement's degree, and ragged ones. Every draw must still come
+    // from an RNG keyed with the witness.
+    for (t, lens) in [(2usize, vec![1usize]), (3, vec![1, 3]), (2, vec![1, 2]), (4, vec![2, 2])] {
+        let m = lens.len();
+        let n = 4usize;
+        let pr = fmrun::params(n, m, t);
+        let vals: Vec<u64> = (0..m).map(|j| 3 + j as u64).collect();
+        let rs: Vec<Vec<Scalar>> = lens.iter().map(|l| (0..*l).map(|_| Scalar::random(&mut rng)).collect()).collect();
+        let Ok(cs) = vals.iter().zip(rs.iter()).map(|(v, r)| pr.pc_gens().commit(&Scalar::from(*v), r)).collect::<Result<Vec<FP>, _>>() else { continue };
+        let Ok(stmt) = RangeStatement::init(pr, cs, vec![None; m], None) else { continue };
+        let wit = RangeWitness { openings: vals.iter().zip(rs.iter()).map(|(v, r)| CommitmentOpening::new(*v, r.clone())).collect(), extension_degree: fmrun::deg(t) };
+        let key = format!("hand-assembled witness n={} t={} blinding counts {:?}", n, t, lens);
+        let mut tr = merlin::Transcript::new(b"verif-harness");
+        tap::start();
+        let proof = Proof::prove_with_rng(&mut tr, &stmt, &wit, &mut TestRng::new(RngKind::Zero));
+        let recs = tap::take();
+        if proof.is_err() {
+            continue; // refused: nothing is drawn for it
+        }
+        let mut nd = 0usize;
+        let mut keyed = true;
+        for r in &recs {
+            if let Ev::Draw { out: d } = &r.ev {
+                if d.len() == 64 {
+                    nd += 1;
+                    let wit_ok = r.hist.iter().any(|e| matches!(e, Ev::Rekey { witness, .. } if !witness.is_empty()));
+                    let ext_ok = r.hist.iter().any(|e| matches!(e, Ev::Finalize { ext } if ext.len() >= 32));
+                    keyed &= wit_ok && ext_ok;
+                }
+            }
+        }
+        out.oracle("C14:every-draw-keyed-and-hedged", keyed && nd > 0, &key, "a scalar was drawn from an RNG built without witness bytes or without 32 bytes of external randomness");
+        classes.insert((n, m, t, 30usize));
+    }
     // seeded statements: r and s still come from the hedged RNG
     for fault in &faults {
         let inst = fmrun::random_inst(8, 1, 1, 2, 4, true, &mut rng);
